@@ -4,6 +4,7 @@ package c18
 import (
 	"bytes"
 	"crypto/md5"
+	"encoding/binary"
 	"encoding/json"
 	"errors"
 	"fmt"
@@ -69,9 +70,25 @@ func (m *memfs) ReadFile(p string) ([]byte, error) {
 	p = filepath.Clean(p)
 	if k, f := m.step("read", p); f {
 		if k > 0 {
-			// a read that fails in the middle: the bytes read so far come back together with the error (as ioutil.ReadFile does)
+			// a read that fails in the middle: the bytes read so far come back together with the error (as ioutil.ReadFile does).
+			// kind 1: half of the file; kind 2: every byte (the error strikes at the very end); kind 3: cut exactly behind the
+			// first PAR2 packet (or the PAR1 header), so that what arrived parses cleanly
 			d := m.files[p]
-			return append([]byte{}, d[:len(d)/2]...), errIO
+			n := len(d) / 2
+			switch k {
+			case 2:
+				n = len(d)
+			case 3:
+				n = 0
+				if len(d) >= 16 && string(d[:8]) == "PAR2\x00PKT" {
+					if l := int(binary.LittleEndian.Uint64(d[8:])); l >= 64 && l <= len(d) {
+						n = l
+					}
+				} else if len(d) >= 0x60 {
+					n = 0x60
+				}
+			}
+			return append([]byte{}, d[:n]...), errIO
 		}
 		return nil, errIO
 	}
@@ -552,7 +569,7 @@ func TestCheck(t *testing.T) {
 		for i, cl := range free.trace {
 			kinds := []int{0}
 			if cl.Op == "read" {
-				kinds = []int{0, 1}
+				kinds = []int{0, 1, 2, 3}
 			}
 			if cl.Op == "write" {
 				kinds = []int{0, 1, 2, 3, 4}
@@ -664,6 +681,8 @@ func TestCheck(t *testing.T) {
 		{Format: "par1", Op: "repair", N: 2, Files: []scen.FileSpec{{Name: "a.dat", Size: 32768, Kind: "random", Seed: 63}, {Name: "b.bin", Size: 40000, Kind: "random", Seed: 64}}, Damage: []scen.Damage{{Op: "flip", File: 0, Off: 5}, {Op: "delete", File: 1}}},
 		{Format: "par2", Op: "repair", Slice: 1024, N: 25, Files: []scen.FileSpec{{Name: "a.dat", Size: 20000, Kind: "random", Seed: 65}, {Name: "sub/b.bin", Size: 300, Kind: "random", Seed: 66}}, Damage: []scen.Damage{{Op: "delete", File: 0}}},
 		{Format: "par2", Op: "create", Slice: 2048, N: 2, Files: []scen.FileSpec{{Name: "a.dat", Size: 40000, Kind: "random", Seed: 67}}},
+		{Format: "par1", Op: "repair", N: 2, Files: []scen.FileSpec{{Name: "a.dat", Size: 40, Kind: "random", Seed: 73}, {Name: "b.dat", Size: 40, Kind: "random", Seed: 73}, {Name: "c.dat", Size: 11, Kind: "random", Seed: 74}}, Damage: []scen.Damage{{Op: "delete", File: 1}}},
+		{Format: "par2", Op: "repair", Slice: 8, N: 2, Files: []scen.FileSpec{{Name: "a.dat", Size: 24, Kind: "random", Seed: 75}, {Name: "b.dat", Size: 24, Kind: "random", Seed: 75}}, Damage: []scen.Damage{{Op: "delete", File: 0}}},
 		{Format: "par2", Op: "verify", Slice: 8, N: 2, NonRec: true, Files: []scen.FileSpec{{Name: "a.dat", Size: 30, Kind: "random", Seed: 69}, {Name: "sub/b.bin", Size: 9, Kind: "random", Seed: 70}}, Damage: []scen.Damage{{Op: "flip", File: 0, Off: 3}}},
 		{Format: "par2", Op: "repair", Slice: 8, N: 3, NonRec: true, DC: true, Files: []scen.FileSpec{{Name: "a.dat", Size: 30, Kind: "random", Seed: 71}, {Name: "sub/b.bin", Size: 9, Kind: "random", Seed: 72}}, Damage: []scen.Damage{{Op: "delete", File: 1}}},
 		{Format: "par1", Op: "create", N: 2, Files: []scen.FileSpec{{Name: "a.dat", Size: 40000, Kind: "random", Seed: 68}}},
